@@ -9,9 +9,9 @@ from harness import exactrun as er
 from harness.props.c02 import qc, qcl, qcm, rfrac
 
 
-def make_block_case(rng, i):
+def make_block_case(rng, i, mode=0):
     from harness.props.c10 import set_exact_lagrange
-    nl = rng.choice([1, 1, 2, 2, 3])
+    nl = rng.choice([1, 1, 2, 2, 3]) if mode == 0 else rng.choice([2, 2, 3])
     P = rng.choice([2, 2, 3])
     imex = (i % 4 == 3)
     jacobi = True if nl > 1 else (rng.random() < 0.5)
@@ -48,7 +48,8 @@ def make_block_case(rng, i):
     dt = F(1, rng.choice([4, 8]))
     u0v = [rfrac(rng, -3, 3) for _ in range(dims[0])]
     finter = (nl > 1 and i % 5 == 1)
-    cfg = dict(kind='IMEX' if imex else 'GI', levels=levels_cfg, num_procs=P, maxiter=1, restol=F(-1), dt=dt, predict_type=None,
+    ptype = {0: None, 1: 'fine_only', 2: 'pfasst_burnin'}[mode]
+    cfg = dict(kind='IMEX' if imex else 'GI', levels=levels_cfg, num_procs=P, maxiter=1, restol=F(-1), dt=dt, predict_type=ptype,
                nsweeps=nsw if nl > 1 else nsw[0], finter=finter, small_tables=24, mssdc_jac=jacobi, do_coll_update=dcu)
     try:
         C = er.build_controller(cfg)
@@ -82,15 +83,21 @@ def make_block_case(rng, i):
 
     def parts(fv):
         return fv if imex else [fv]
-    pred = {e['slot']: e['levels'][0] for e in log if e['cb'] == 'pre_iteration' and e['iter'] == 1}
-    post = {e['slot']: e['levels'][0] for e in log if e['cb'] == 'post_iteration' and e['iter'] == 1}
+    if mode == 0:
+        pred = {e['slot']: e['levels'][0] for e in log if e['cb'] == 'pre_iteration' and e['iter'] == 1}
+        post = {e['slot']: e['levels'][0] for e in log if e['cb'] == 'post_iteration' and e['iter'] == 1}
+    else:       # predictor: state of every step before / after the PREDICT stage
+        pred = {e['slot']: e['levels'][0] for e in log if e['cb'] == 'pre_predict'}
+        post = {e['slot']: e['levels'][0] for e in log if e['cb'] == 'post_predict'}
     if sorted(pred) != list(range(P)) or sorted(post) != list(range(P)):
         return None
     expected = []
     for p in range(P):
         expected += [x for v in post[p]['u'] for x in v]
         expected += [x for fv in post[p]['f'][1:] for pt in parts(fv) for x in pt]
-    expected += [1] * (P * nl)          # every (step, level) entry must have been produced from valid data
+    # validity flags: every (step, level) entry the schedule touches must have been produced from valid data (fine_only never
+    # touches the coarse levels)
+    expected += ([1] + [0] * (nl - 1)) * P if mode == 1 else [1] * (P * nl)
 
     def mlevel(l):
         d = lv[l]
@@ -104,14 +111,14 @@ def make_block_case(rng, i):
         return ('{| mx_df := %d%%nat; mx_dc := %d%%nat; mx_Rs := %s; mx_Ps := %s; mx_Rcoll := %s; mx_Pcoll := %s; mx_finter := %s |}'
                 % (dims[k], dims[k + 1], qcm(RS[k]), qcm(PS[k]), qcm([[0] * (Mf + 1)] + [[0] + list(r) for r in R[k]]),
                    qcm([[0] * (Mc + 1)] + [[0] + list(r) for r in Pm[k]]), coq_bool(finter)))
-    lit = ('({| b_t0 := %s; b_dt := %s; b_imex := %s; b_jacobi := %s; b_levels := %s; b_xfers := %s; b_ends := %s; b_u := %s; b_f := %s |}, %s)'
+    lit = (('({| b_t0 := %s; b_dt := %s; b_imex := %s; b_jacobi := %s; b_mode := ' + str(mode) + '%%nat; b_levels := %s; b_xfers := %s; b_ends := %s; b_u := %s; b_f := %s |}, %s)')
            % (qc(F(0)), qc(dt), coq_bool(imex), coq_bool(jacobi), coq_list([mlevel(l) for l in range(nl)]),
               coq_list([mxfer(k) for k in range(nl - 1)]),
               coq_list(['(%s, %s, %s)' % (coq_bool(d['end'][0]), coq_bool(d['end'][1]), qcl(d['end'][2])) for d in lv]),
               coq_list([qcm(pred[p]['u']) for p in range(P)]),
               coq_list([coq_list([qcm(parts(fv)) for fv in pred[p]['f']]) for p in range(P)]),
               qcl(expected)))
-    meta = dict(steps=P, levels=nl, nodes=nn, nsweeps=nsw, dims=dims, imex=imex, jacobi=jacobi, finter=finter, dt=str(dt), quad_type=quad, do_coll_update=dcu,
+    meta = dict(mode={0: 'iteration', 1: 'predict fine_only', 2: 'predict pfasst_burnin'}[mode], steps=P, levels=nl, nodes=nn, nsweeps=nsw, dims=dims, imex=imex, jacobi=jacobi, finter=finter, dt=str(dt), quad_type=quad, do_coll_update=dcu,
                 QI=[x['QI'] for x in levels_cfg], u0=[str(v) for v in u0v])
     return meta, lit
 
